@@ -26,6 +26,20 @@ PROPS = {
         ],
         "explanation": "Gen.getMsgKey is regenerated from plugin/executable/cache/utils.go, proved equal to Model.C04.msgKey, which is proved injective on cacheable queries; the correspondence runs getMsgKey and cache.Exec on one-attribute variants.",
     },
+    "C17": {
+        "lean_targets": ["MosdnsVerif.Props.C17"],
+        "obligation_files": ["MosdnsVerif/Props/C17.lean", "MosdnsVerif/Refine/C17.lean"],
+        "namespaces": ["Props.C17", "Refine.C17"],
+        "driver": "drv_C17",
+        "gen_functions": ["msgTruncated", "udpWithFallbackExchange"],
+        "level": "proof",
+        "level_text": "Machine-checked proof (Lean 4) over definitions regenerated from pkg/upstream: msgTruncated is the TC bit for all 256 flag bytes; udpWithFallback sends the same query to TCP exactly when the UDP reply has TC set and returns the TCP outcome, otherwise returns the UDP reply untouched without using TCP - for arbitrary UDP/TCP behaviours (function parameters). Tied to the code by regeneration (T1) and by runs of the real upstream against a UDP+TCP loopback server over every flag byte.",
+        "level_note": "Trusted: Lean kernel (one `decide +kernel` over the 256 values of a byte, no extra axiom); go/extract with its statement table for the two transport calls (changes to those statements stop translation); Go net stack on loopback. Reply sizes < 3 bytes cannot occur (readMsgUdp drops < 12).",
+        "technique": "Lean 4 proof over T1-regenerated definitions + differential runs against loopback UDP/TCP servers",
+        "trusted": ["modelled, not verified: the UDP pipeline transport and the TCP reuse transport themselves (C01/C02/C07/C08); loopback sockets"],
+        "assumptions": ["UDP replies have at least 12 bytes (shorter datagrams are dropped by readMsgUdp)"],
+        "explanation": "Gen.msgTruncated / Gen.udpWithFallbackExchange regenerated and proved equal to Model.C17; the correspondence drives upstream.NewUpstream(udp://) against harness listeners and compares what the caller got and whether TCP was used.",
+    },
 }
 
 # Reasons for properties that are not claimed (yet).
